@@ -43,13 +43,17 @@ CONSTANTS
   Weak_InitChainAlways,            \* Handshake sends InitChain whatever the app height is
   Weak_CommitWithoutMempoolLock,   \* BlockExecutor.Commit does not lock the mempool
   Weak_NoFlushBeforeCommit,        \* BlockExecutor.Commit does not flush the mempool connection
-  Weak_NoEndHeightRepair           \* catchupReplay does not write a missing #ENDHEIGHT of the last committed block
+  Weak_NoEndHeightRepair,          \* catchupReplay does not write a missing #ENDHEIGHT of the last committed block
+  Weak_HandshakeAcceptsAppAhead,   \* ReplayBlocks: no "store < app" error case; store = state treats any app >= store as synced
+  Weak_EmptyStoreAcceptsAppAhead   \* ReplayBlocks: with an empty block store only the app hash is compared, not the heights
 
 Nil == "nil"
 
 \* ----------------------------------------------------------------------------- chain plan
 \* cfg = [maxh, txs (seq: #txs of block h), vu (seq of heights with validator updates),
-\*        pu (seq of heights with consensus-param updates), retain (seq: RetainHeight of Commit(h))]
+\*        pu (seq of heights with consensus-param updates), retain (seq: RetainHeight of Commit(h)),
+\*        hashc (BOOLEAN: the application hash covers the number of commits; FALSE = it only
+\*        changes with transactions, like kvstore's: empty blocks leave it where it was)]
 InSeq(x, q)   == \E k \in DOMAIN q : q[k] = x
 NTxs(c, h)    == IF h \in DOMAIN c.txs THEN c.txs[h] ELSE 0
 HasVU(c, h)   == InSeq(h, c.vu)
@@ -59,8 +63,15 @@ Retain(c, h)  == IF h \in DOMAIN c.retain THEN c.retain[h] ELSE 0
 RECURSIVE SumTxs(_, _)
 SumTxs(c, h) == IF h <= 0 THEN 0 ELSE NTxs(c, h) + SumTxs(c, h - 1)
 \* the application hash after the chain's first h blocks: (number of commits, number of txs)
-HashAfter(c, h) == [c |-> h, t |-> SumTxs(c, h)]
+HashAfter(c, h) == [c |-> IF c.hashc THEN h ELSE 0, t |-> SumTxs(c, h)]
 Hash0 == [c |-> 0, t |-> 0]
+\* the hash after one more Commit of a block with nd transactions
+NextHash(c, hash, nd) == [c |-> IF c.hashc THEN hash.c + 1 ELSE 0, t |-> hash.t + nd]
+\* sm.State after block h of the plan (what a data directory restored from a backup taken at h holds)
+MaxUpTo(q, h) == LET S == {q[k] : k \in DOMAIN q} \cap 0..h IN IF S = {} THEN 0 ELSE CHOOSE x \in S : \A y \in S : y <= x
+StateAfter(c, h) == [h |-> h, hash |-> HashAfter(c, h),
+                     lhvc |-> IF MaxUpTo(c.vu, h) = 0 THEN 1 ELSE MaxUpTo(c.vu, h) + 2,
+                     lhpc |-> IF MaxUpTo(c.pu, h) = 0 THEN 1 ELSE MaxUpTo(c.pu, h) + 1]
 
 \* ----------------------------------------------------------------------------- journal
 JE(t, h, i) == [t |-> t, h |-> h, i |-> i]
@@ -167,7 +178,8 @@ InitState(c) == [
   err       |-> "",
   \* ---- ghosts
   crashes   |-> 0,
-  rolled    |-> FALSE,      \* the application has lost committed blocks at some crash (RollbackOf)
+  rolled    |-> FALSE,      \* the application has lost committed blocks at some crash (AppSetOf)
+  tampered  |-> FALSE,      \* an operator restored (parts of) the data directory / the app ran ahead (TamperOf)
   sched     |-> << >>       \* labels of the operations the crashes preceded
 ]
 
@@ -187,6 +199,30 @@ DecisionInWal(w, h) == HasEnd(w, h - 1) /\
                        \E k \in DOMAIN w : k > FirstEnd(w, h - 1) /\ w[k].t = "msg" /\ w[k].h = h /\ w[k].k = "precommit"
 
 Fail(s, why) == [s EXCEPT !.pc = "Panic", !.err = why]
+
+\* Handshaker.ReplayBlocks: the outcome table on (store height, store base, state height, app height),
+\* in the order of the code's switch.  It holds for EVERY triple, not only for those a crash of this
+\* node's own pipeline can leave behind (operator restores, lost writes, an app that ran ahead).
+HandshakeCase(storeH, base, stateH, appH) ==
+  IF storeH = 0 THEN                                       \* nothing to replay: the app hash is compared ...
+       IF appH > stateH /\ ~Weak_EmptyStoreAcceptsAppAhead
+       THEN "err_app_too_high"                             \* ... unless the app knows blocks this node does not
+       ELSE "store_empty"
+  ELSE IF appH = 0 /\ 1 < base THEN "err_app_too_low"      \* ErrAppBlockHeightTooLow
+  ELSE IF appH > 0 /\ appH < base - 1 THEN "err_app_too_low"
+  ELSE IF storeH < appH /\ ~Weak_HandshakeAcceptsAppAhead THEN "err_app_too_high"   \* ErrAppBlockHeightTooHigh
+  ELSE IF storeH < stateH THEN "panic_state_ahead_of_store"
+  ELSE IF storeH > stateH + 1 THEN "panic_store_two_ahead_of_state"
+  ELSE IF storeH = stateH THEN
+         IF appH < storeH THEN "replay_app_behind"
+         ELSE IF appH = storeH \/ Weak_HandshakeAcceptsAppAhead THEN "synced"
+         ELSE "uncovered"
+  ELSE \* storeH = stateH + 1
+         IF appH < stateH THEN "replay_app_behind_then_last"
+         ELSE IF appH = stateH THEN "replay_last_real"
+         ELSE IF appH = storeH THEN "replay_last_mock"
+         ELSE IF Weak_HandshakeAcceptsAppAhead THEN "err_app_too_high"   \* the weakened code returns the error here
+         ELSE "uncovered"
 \* The node starts height cs_h WITHOUT replaying its WAL.  If the key already signed a vote in
 \* round 0 of this height (in an earlier incarnation) FilePV refuses both a new proposal ("step
 \* regression") and any other vote ("conflicting data"): alone, the node cannot leave round 0.
@@ -247,28 +283,26 @@ Do(s) ==
   [] s.pc = "HS_SaveGenState" ->      \*   stateKey (SetSync)
        [s EXCEPT !.ss_saved = TRUE, !.ss_st = s.st, !.pc = "HS_Cases"]
   [] s.pc = "HS_Cases" ->             \* ReplayBlocks: the case analysis on (app, store, state) heights
-       LET storeH == s.bs_h  base == s.bs_base  stateH == s.st.h  appH == s.hs_app_h IN
-       IF storeH = 0 THEN [s EXCEPT !.pc = "HS_AssertDone", !.hs_final = "none"]
-       ELSE IF appH = 0 /\ 1 < base THEN HsErr(s, "app block height too low")
-       ELSE IF appH > 0 /\ appH < base - 1 THEN HsErr(s, "app block height too low")
-       ELSE IF storeH < appH THEN HsErr(s, "app block height too high")
-       ELSE IF storeH < stateH THEN Fail(s, "StateBlockHeight > StoreBlockHeight")
-       ELSE IF storeH > stateH + 1 THEN Fail(s, "StoreBlockHeight > StateBlockHeight + 1")
-       ELSE IF storeH = stateH THEN
-              IF appH < storeH     \* replayBlocks(mutateState = false)
-              THEN [s EXCEPT !.h = appH + 1, !.hs_to = storeH, !.hs_final = "none", !.pc = "EC_Next"]
-              ELSE [s EXCEPT !.hs_final = "none", !.pc = "HS_AssertDone"]
-       ELSE \* storeH = stateH + 1
-            IF appH < stateH       \* replayBlocks(mutateState = true)
-            THEN [s EXCEPT !.h = appH + 1, !.hs_to = storeH - 1, !.hs_final = "real", !.pc = "EC_Next"]
-            ELSE IF appH = stateH  \* replayBlock on the real app
-            THEN [s EXCEPT !.h = storeH, !.hs_final = "real", !.pc = "RB_Start"]
-            ELSE \* appH = storeH: Commit ran, state not saved -> mock app fed with the saved responses
-                 IF Weak_HandshakeReplaysCommitted
-                 THEN [s EXCEPT !.h = storeH, !.hs_final = "real", !.pc = "RB_Start"]
-                 ELSE IF s.ss_last.h # storeH     \* LoadLastABCIResponse(storeBlockHeight)
-                 THEN HsErr(s, "no last ABCI response for the stored block")
-                 ELSE [s EXCEPT !.h = storeH, !.hs_final = "mock", !.pc = "RB_Start"]
+       LET storeH == s.bs_h  stateH == s.st.h  appH == s.hs_app_h
+           case == HandshakeCase(storeH, s.bs_base, stateH, appH) IN
+       (CASE case = "store_empty"       -> [s EXCEPT !.pc = "HS_AssertDone", !.hs_final = "none"]
+         [] case = "err_app_too_low"   -> HsErr(s, "app block height too low")
+         [] case = "err_app_too_high"  -> HsErr(s, "app block height too high")
+         [] case = "panic_state_ahead_of_store"     -> Fail(s, "StateBlockHeight > StoreBlockHeight")
+         [] case = "panic_store_two_ahead_of_state" -> Fail(s, "StoreBlockHeight > StateBlockHeight + 1")
+         [] case = "uncovered"         -> Fail(s, "uncovered case")
+         [] case = "replay_app_behind" ->           \* replayBlocks(mutateState = false)
+              [s EXCEPT !.h = appH + 1, !.hs_to = storeH, !.hs_final = "none", !.pc = "EC_Next"]
+         [] case = "synced"            -> [s EXCEPT !.hs_final = "none", !.pc = "HS_AssertDone"]
+         [] case = "replay_app_behind_then_last" -> \* replayBlocks(mutateState = true)
+              [s EXCEPT !.h = appH + 1, !.hs_to = storeH - 1, !.hs_final = "real", !.pc = "EC_Next"]
+         [] case = "replay_last_real"  -> [s EXCEPT !.h = storeH, !.hs_final = "real", !.pc = "RB_Start"]
+         [] case = "replay_last_mock"  ->           \* Commit ran, state not saved -> mock app fed with the saved responses
+              IF Weak_HandshakeReplaysCommitted
+              THEN [s EXCEPT !.h = storeH, !.hs_final = "real", !.pc = "RB_Start"]
+              ELSE IF s.ss_last.h # storeH     \* LoadLastABCIResponse(storeBlockHeight)
+              THEN HsErr(s, "no last ABCI response for the stored block")
+              ELSE [s EXCEPT !.h = storeH, !.hs_final = "mock", !.pc = "RB_Start"])
   \* ----------------------------------------------------------------------- replayBlocks loop: sm.ExecCommitBlock
   [] s.pc = "EC_Next" ->
        IF s.h > s.hs_to
@@ -287,7 +321,7 @@ Do(s) ==
   [] s.pc = "EC_End" ->
        [s EXCEPT !.journal = J(s, "End", s.h, 0), !.app_open.ended = TRUE, !.pc = "EC_Commit"]
   [] s.pc = "EC_Commit" ->
-       LET nh == [c |-> s.app_hash.c + 1, t |-> s.app_hash.t + s.app_open.nd] IN
+       LET nh == NextHash(c, s.app_hash, s.app_open.nd) IN
        [s EXCEPT !.journal = J(s, "Commit", s.app_open.h, 0), !.app_h = s.app_h + 1, !.app_hash = nh,
                  !.app_open = [h |-> 0, nd |-> 0, ended |-> FALSE], !.hs_ec = nh, !.hs_ecset = TRUE,
                  !.h = s.h + 1, !.i = 0, !.pc = "EC_Next"]
@@ -331,7 +365,9 @@ Do(s) ==
   [] s.pc = "FC_Start" ->             \* blockExec.ValidateBlock; "if cs.blockStore.Height() < block.Height"
        LET s1 == [s EXCEPT !.h = s.cs_h, !.i = 0, !.mode = "fc", !.retain = 0, !.lock = FALSE,
                            !.flushed = FALSE, !.committed = FALSE] IN
-       IF ~BlockValid(s1, s1.h) THEN Fail(s1, "+2/3 committed an invalid block")
+       \* the block was built by this node on its own state (header.AppHash = state.AppHash): only the
+       \* height can be off
+       IF s1.h # s1.st.h + 1 THEN Fail(s1, "+2/3 committed an invalid block")
        ELSE IF Weak_EndHeightBeforeSaveBlock THEN [s1 EXCEPT !.pc = "FC_WalEndHeight"]
        ELSE IF s1.bs_h < s1.h THEN [s1 EXCEPT !.pc = "FC_BSPart"] ELSE [s1 EXCEPT !.pc = "FC_WalEndHeight"]
   [] s.pc = "FC_BSPart"   -> [s EXCEPT !.bs_w = s.bs_w \cup {"part"},   !.pc = "FC_BSMeta"]    \* P:<h>:<i>
@@ -372,7 +408,7 @@ Do(s) ==
        [s EXCEPT !.flushed = TRUE, !.pc = "AB_AppCommit"]
   [] s.pc = "AB_AppCommit" ->         \*   proxyApp.CommitSync()
        LET onapp == OnApp(s)
-           nh == IF onapp THEN [c |-> s.app_hash.c + 1, t |-> s.app_hash.t + s.app_open.nd]
+           nh == IF onapp THEN NextHash(c, s.app_hash, s.app_open.nd)
                  ELSE s.hs_hash        \* mockProxyApp.Commit returns the hash Info reported
            s1 == [s EXCEPT !.nst = [UpdateState(s) EXCEPT !.hash = nh], !.committed = TRUE,
                            !.retain = IF onapp /\ s.mode = "fc" THEN Retain(c, s.h) ELSE 0,
@@ -423,17 +459,45 @@ CrashOf(s, label) ==
             !.ss_abci = s.ss_abci, !.ss_last = s.ss_last, !.wal = s.wal, !.pv = s.pv,
             !.app_h = s.app_h, !.app_hash = s.app_hash, !.app_open = s.app_open,
             !.journal = Append(s.journal, JE("Crash", 0, 0)),
-            !.crashes = s.crashes + 1, !.rolled = s.rolled, !.sched = Append(s.sched, label)]
+            !.crashes = s.crashes + 1, !.rolled = s.rolled, !.tampered = s.tampered, !.sched = Append(s.sched, label)]
 
-\* Together with the node the APPLICATION restarts and has lost its last n commits (an app that
-\* persists asynchronously).  Not a crash point of the node, but the reason ReplayBlocks has its
-\* "app is behind" branches (ExecCommitBlock); the journal property is relative to the height the
-\* application reports.
-RollbackOf(s, n) ==
-  IF n = 0 THEN s
-  ELSE [s EXCEPT !.app_h = s.app_h - n, !.app_hash = HashAfter(s.cfg, s.app_h - n),
+\* Together with the node the APPLICATION restarts and reports another height than it had: it
+\* lost its last commits (an app that persists asynchronously) or it is AHEAD (it went on alone /
+\* the node's data is older).  Lost commits are the reason ReplayBlocks has its "app is behind"
+\* branches (ExecCommitBlock); the journal property is relative to the height the app reports.
+AppSetOf(s, newh) ==
+  IF newh = s.app_h THEN s
+  ELSE [s EXCEPT !.app_h = newh,
+                 !.app_hash = IF newh < s.app_h THEN HashAfter(s.cfg, newh)
+                              ELSE [c |-> IF s.cfg.hashc THEN newh ELSE 0, t |-> s.app_hash.t],   \* empty blocks of its own
                  !.app_open = [h |-> 0, nd |-> 0, ended |-> FALSE],
-                 !.journal = Append(s.journal, JE("Rollback", s.app_h - n, 0)), !.rolled = TRUE]
+                 !.journal = Append(s.journal, JE("Rollback", newh, 0)),
+                 !.rolled = TRUE, !.tampered = s.tampered \/ newh > s.app_h]
+RollbackOf(s, n) == AppSetOf(s, s.app_h - n)
+
+\* An operator puts back an older copy of (part of) the node's data directory, taken when height k
+\* was the last committed one.  (Plans without pruning: the base of such a copy is 1.)
+MinI(a, b) == IF a < b THEN a ELSE b
+RestoreBS(s, k) == [s EXCEPT !.bs_h = k, !.bs_w = {}, !.bs_base = IF s.bs_base = 0 THEN 0 ELSE MinI(s.bs_base, k),
+                             !.tampered = TRUE]
+RestoreSS(s, k) == [s EXCEPT !.ss_saved = TRUE, !.ss_st = StateAfter(s.cfg, k),
+                             !.ss_vals = {p \in s.ss_vals : p[1] <= k + 2},
+                             !.ss_params = {p \in s.ss_params : p[1] <= k + 1},
+                             !.ss_abci = {x \in s.ss_abci : x <= k},
+                             !.ss_last = [h |-> k, vu |-> HasVU(s.cfg, k), pu |-> HasPU(s.cfg, k)],
+                             !.tampered = TRUE]
+\* the WAL and the validator key's last-sign state of that copy
+RestoreWP(s, k) == [s EXCEPT !.wal = IF HasEnd(s.wal, k) THEN SubSeq(s.wal, 1, FirstEnd(s.wal, k)) ELSE s.wal,
+                             !.pv = [h |-> k, step |-> 3], !.tampered = TRUE]
+\* db / ds: how many blocks older the restored block store / state store are; da: app height change
+TamperOf(s, db, ds, da) ==
+  LET nb == s.bs_h - db
+      ns == s.ss_st.h - ds
+      s1 == IF db > 0 THEN RestoreBS(s, nb) ELSE s
+      s2 == IF ds > 0 THEN RestoreSS(s1, ns) ELSE s1
+      k  == IF db > 0 /\ ds > 0 THEN MinI(nb, ns) ELSE IF db > 0 THEN nb ELSE ns
+      s3 == IF db > 0 \/ ds > 0 THEN RestoreWP(s2, k) ELSE s2
+  IN AppSetOf(s3, s.app_h + da)
 
 \* label of the operation Do(s) is about to execute (what a crash "before it" is named after)
 Label(s) == [name |-> IF s.pc = "CS" THEN (IF s.cs_n = 0 THEN "CS_WalOther" ELSE IF s.cs_n = 1 THEN "CS_WalPrecommit" ELSE "CS_Decide")
@@ -442,7 +506,10 @@ Label(s) == [name |-> IF s.pc = "CS" THEN (IF s.cs_n = 0 THEN "CS_WalOther" ELSE
              h    |-> IF s.pc = "CS" THEN s.cs_h ELSE s.h,
              i    |-> IF s.pc = "FC_BSState" THEN (IF s.bs_base = 0 THEN s.h ELSE s.bs_base)
                       ELSE IF s.pc = "FC_PruneBSState" THEN s.retain ELSE s.i,
-             rb   |-> 0]       \* blocks the application loses at a crash before this operation
+             rb   |-> 0,       \* blocks the application loses at a crash before this operation
+             fwd  |-> 0,       \* blocks the application is ahead by after it
+             rbs  |-> 0,       \* how many blocks older the block store put back after it is
+             rss  |-> 0]       \* ... and the state store
 
 AllPcs == SilentPcs \cup {"HS_Info", "HS_InitChain", "HS_SaveGenVals1", "HS_SaveGenVals2", "HS_SaveGenParams",
   "HS_SaveGenState", "EC_Begin", "EC_Deliver", "EC_End", "EC_Commit", "HS_Done", "CS", "FC_BSPart", "FC_BSMeta",
@@ -460,10 +527,11 @@ JournalWellFormedAt(s) == JournalOK(s.cfg, s.journal)
 HeightsAgreeAt(s) ==
   s.pc = "HS_Done" => /\ s.app_h = s.ss_st.h /\ s.bs_h = s.ss_st.h
                       /\ s.app_hash = s.ss_st.hash
-CursorsWithinOneAt(s) == /\ s.bs_h \in {s.ss_st.h, s.ss_st.h + 1}
-                         /\ s.app_h <= s.ss_st.h + 1
-                         /\ (~s.rolled => s.app_h >= s.ss_st.h)
-                         /\ s.app_h <= s.bs_h
+CursorsWithinOneAt(s) == \/ s.tampered
+                         \/ /\ s.bs_h \in {s.ss_st.h, s.ss_st.h + 1}
+                            /\ s.app_h <= s.ss_st.h + 1
+                            /\ (~s.rolled => s.app_h >= s.ss_st.h)
+                            /\ s.app_h <= s.bs_h
 WalEndImpliesStoredAt(s) == \A k \in DOMAIN s.wal : s.wal[k].t = "end" => s.wal[k].h <= s.bs_h
 NoStuckAt(s) == s.pc \notin {"HS_Error", "Panic", "Stalled"}
 MempoolBracketAt(s) == /\ (s.pc = "AB_AppCommit" /\ s.mode = "fc") => (s.lock /\ s.flushed)
